@@ -503,10 +503,19 @@ macro_rules! define_frost_core { () => {
         /// commitments.
         ///
         /// This function is called `vss_verify` in the FROST specification.
+        /// It also checks that the group public key recorded in this
+        /// share is the one the dealer committed to (first VSS element).
         pub fn verify_split(self, vsscomm: &[VSSElement]) -> bool {
             // We don't need to check that the private key is not zero, or
             // that the public key matches it, because this was already
             // verified when decoding.
+
+            // The share carries its own copy of the group public key
+            // (used to compute challenges when signing); it must match
+            // the constant term of the VSS commitment.
+            if self.group_pk.pk.equals(vsscomm[0].0) == 0 {
+                return false;
+            }
 
             let mut Q = vsscomm[0].0;
             let k = self.ident;
